@@ -132,6 +132,7 @@ type Mix struct {
 	LongRWCommits int64
 	MinWrites     int
 	ReadAll       bool // read-only transactions read every key
+	NoReads       bool // blind writers only
 }
 
 // DefaultMix returns a general-purpose mix.
@@ -423,6 +424,9 @@ func (c *client) runTxn() {
 		c.doGet(txn, rec, cold, pending)
 		readKeys = [][]byte{cold}
 		rec.Cold = true
+		nReads = 0
+	}
+	if m.NoReads {
 		nReads = 0
 	}
 	for i := 0; i < nReads; i++ {
